@@ -120,6 +120,8 @@ FIRE = [
     ("collapse-not-renormalised-by-norm", "C10", [(BACK, "    sv_selected = sv_selected/sqrt_probability  # casting", "    sv_selected = sv_selected/sqrt_probability**2  # casting")], "K9.collapse"),
     ("collapse-qubit-bound-off-by-one", "C10", [(BACK, "    if qubit > n_qubits-1:", "    if qubit > n_qubits:")], "K9.collapse"),
     ("collapse-reshape-axes-swapped", "C10", [(BACK, "(before_index_length, 2, after_index_length))", "(after_index_length, 2, before_index_length))")], "K9.collapse"),
+    ("cirq-loop-pads-with-all-measurements", "C10", [(TGCIRQ, "                        precirc = [Circuit()]*len(new_qubits) + precirc", "                        precirc = [Circuit()]*len(qubits) + precirc")], "K8.control-loop-clone"),
+    ("replay-tail-appended-after", "C10", [(CIRC, "        precirc[0] = new_unitary_circuits[-1] + precirc[0]", "        precirc[0] += new_unitary_circuits[-1]")], "K9.nested-control-replay"),
     ("collapse-keeps-wrong-slice", "C10", [(BACK, "    sv_selected[:, (result + 1) % 2, :] = 0", "    sv_selected[:, result, :] = 0")], "K9.collapse"),
     # ---- C12
     ("reorder-beta-offset-floor", "C12", [(MT, "    remapped[1::2] += int(np.ceil(n_spinorbitals / 2.))", "    remapped[1::2] += int(np.ceil(n_spinorbitals / 2.)) - 1")], "K8.spin-ordering"),
